@@ -9,6 +9,7 @@ use std::f64::consts::PI;
 mod rng;
 mod c07;
 mod opw;
+mod wrap;
 mod json;
 
 pub struct Found {
@@ -61,6 +62,8 @@ fn search(prop: &str, seed: u64, obls: &[String]) -> Option<Found> {
         "C05" => opw::search("c05", seed, 100000),
         "C06" => opw::search("c06", seed, 60000),
         "C08" => opw::search("c08", seed, 60000),
+        "C09" => wrap::search("c09", seed, 20000),
+        "C16" => wrap::search("c16", seed, 20000),
         _ => None,
     }
 }
@@ -69,6 +72,7 @@ fn replay(prop: &str, kind: &str, case: &str) -> Option<Found> {
     match prop {
         "C07" | "C18" => c07::replay(kind, case),
         "C01" | "C04" | "C05" | "C06" | "C08" => opw::replay(kind, case),
+        "C09" | "C16" => wrap::replay(kind, case),
         _ => None,
     }
 }
